@@ -165,6 +165,13 @@ def generate(rng, tier, run):
                 if rng.random() < 0.15:
                     op['real_parse'] = True
     trace = big and rng.random() < 0.7
+    if trace and rng.random() < 0.06:
+        # rare and expensive: line pre-emption inside the TatSu parser as well, every statement sent as text
+        trace = 'parser'
+        for c in clients:
+            c['ops'] = c['ops'][:1]
+            for op in c['ops']:
+                op['real_parse'] = True
     est = sum(len(c['ops']) for c in clients) * (len(t0['rows']) + 14) * (40 if trace else 3)
     return {
         'world': {'ledgers': ledgers, 'tables': [t0], 'stmts': pool, 'topology': topology},
@@ -277,7 +284,7 @@ def execute(case, keep_log=False):
 
     rng = core.random.Random(case['sched']['seed'])
     S = Sim(log, n, rng=rng, strategy=case['sched']['strategy'], forced=case.get('decisions'),
-            trace_lines=bool(case.get('trace')))
+            trace_lines=case.get('trace') or False)
     world.set_current(S)
     try:
         if topology == 'shared':
